@@ -10,6 +10,9 @@ CHECKS={
  "C02":dict(cat="exploration",technique="runtime monitoring: differential execution in V8 of scope-stress programs with unique tagged values at every binding and h() observation of every visible name, plus acorn-based scope analysis of input vs output",
    text="Seeded scope trees (nested function/arrow/method/class/block/for/switch/catch scopes with shadowing, destructuring parameters with defaults, var hoisting, labels/property names equal to locals, with-functions, free globals named like generated names, closures run after scope exit) and wide scopes of up to 4000 bindings are minified with renaming on and with KeepVarNames; both texts run in V8 and every observation site must see the same tagged values; statically, the output may have no new free names, the same top-level and import/export names, no new names inside with-functions, and under KeepVarNames no identifier that the input lacks.",
    note="Sampled; static monitors are inclusion checks (sound, incomplete); three genuine defects are known findings with generator guards.",ref="DESIGN.md §5 C02"),
+ "C03":dict(cat="exploration",technique="runtime monitoring: differential DOM oracle - input and output parsed by golang.org/x/net/html, event streams compared under the documented-changes relation",
+   text="Seeded conforming HTML documents/fragments (content-model driven generator with optional tags written or omitted, hostile attribute values in every quoting form, references, whitespace around inline/object/block elements, pre/textarea, payload elements, comments) are minified under random Keep* combinations with and without sub-minifiers; both texts are parsed by an independent HTML5 tree builder and must have the same element structure, equivalent attributes by kind, the same words per element context with whitespace only removed next to break boundaries, comments per option and payload slots equal to what the registered minifier returns.",
+   note="Sampled; x/net/html and my transcription of the HTML Standard (break boundaries, boolean/URL/token-list attribute kinds, optional-tag rules) are the trusted base; two genuine defects are known findings.",ref="DESIGN.md §5 C03"),
  "C06":dict(cat="exploration",technique="runtime monitoring: differential infoset oracle (own XML tokenizer with attribute-value normalisation + encoding/xml strict) over an exhaustive neighbour matrix and seeded generated documents",
    text="The real XML minifier is run, with both KeepWhitespace values, on every ordered triple of ten node kinds around whitespace runs (exhaustive), on seeded generated well-formed documents and on repository XML files; input and output are tokenized by my own XML tokenizer and compared as infoset event streams (elements, normalised attribute values, PIs, DOCTYPE, character-data runs up to collapsing/trimming, KeepWhitespace boundary rule), and the output must be well-formed for my tokenizer and encoding/xml.",
    note="Trusts my tokenizer and encoding/xml; PI data compared up to whitespace outside quotes; two genuine defects (]]> in character data, PI data re-printed as attributes) are known findings with input guards.",ref="DESIGN.md §5 C06"),
